@@ -133,7 +133,8 @@ def run(instrs, n_inputs, oracle, limit=1 << 32, max_len=1 << 16):
         elif name == "PUSH0":
             S.append(0)
         elif name in ("PUSH [tag]", "PUSH data", "PUSHIMMUTABLE", "PUSHLIB", "PUSH #[$]", "PUSH [$]"):
-            S.append(oracle.const((name, str(value))))
+            from .evm_smt import pseudo_key
+            S.append(oracle.const(pseudo_key(name, value)))
         elif name in ("PUSHSIZE", "PUSHDEPLOYADDRESS"):
             S.append(oracle.const((name,)))
         elif name.startswith("DUP"):
